@@ -1,5 +1,5 @@
 (* Entry points evaluated by the correspondence check (vm_compute), one per engine. *)
-From Grcov Require Import Model.Merge.
+From Grcov Require Export Model.Merge.
 
 Fixpoint eval_loop (cs : list cov) (t : bintree N) : cov :=
   match t with
@@ -8,3 +8,34 @@ Fixpoint eval_loop (cs : list cov) (t : bintree N) : cov :=
   end.
 Definition run_merge (cs : list cov_l) (t : bintree N) : cov_l :=
   cov_to_l (eval_loop (map cov_of_l cs) t).
+
+From Grcov Require Export Model.Lcov Model.LcovOut.
+(* outcome of a parser as (tag, results): 0 Ok, 1 Err, 2 Panic, 3 OutOfFuel *)
+Definition show_results (o : outcome (list (name * cov))) : N * list (name * cov_l) :=
+  match o with
+  | Ok rs => (0, map (fun '(n, c) => (n, cov_to_l c)) rs)
+  | Err => (1, [])
+  | Panic => (2, [])
+  | OutOfFuel => (3, [])
+  end.
+Definition run_lcov (b : bool) (bytes_ : bytes) := show_results (parse_lcov bytes_ b).
+Definition results_of_l (rs : list (name * cov_l)) : list (name * cov) := map (fun '(n, c) => (n, cov_of_l c)) rs.
+(* k round trips: bytes written at each round and the final parse *)
+Fixpoint run_lcov_rt (k : nat) (b : bool) (rs : list (name * cov)) (outs : list bytes) : list bytes * outcome (list (name * cov)) :=
+  match k with
+  | O => (outs, Ok rs)
+  | S k => let o := output_lcov rs in
+           match parse_lcov o b with
+           | Ok rs' => run_lcov_rt k b rs' (outs ++ [o])
+           | e => (outs ++ [o], e)
+           end
+  end.
+Definition run_rt (k : N) (b : bool) (rs : list (name * cov_l)) :=
+  let '(outs, o) := run_lcov_rt (N.to_nat k) b (results_of_l rs) [] in (outs, show_results o).
+
+From Grcov Require Export Model.LcovSpec.
+(* a file given as records: rendered bytes, what the parser model makes of them, what the spec says *)
+Definition run_lcov_spec (b : bool) (f : lfile) :=
+  (render_file f, wf_file f, existsb KnownClass_fnda_first (l_sections f),
+   show_results (parse_lcov (render_file f) b),
+   map (fun s => (s_name s, cov_to_l (denote b (s_recs s).*1))) (l_sections f)).
